@@ -109,6 +109,28 @@ Theorem C36_subscription_extended :
 Proof. exact tick_sub_extended. Qed.
 Print Assumptions C36_subscription_extended.
 
+(* Periodic position check at the presence tick: the subscriptions found at an invalid position
+   ([pos_invalid]: positioned, last check more than the delay ago, stream top differs) are
+   exactly the ones unsubscribed with 2500; a server-side one closes with 3010; one checked
+   no more than the delay ago is left alone. *)
+Theorem C36_position_invalid_unsubscribes :
+  forall l s,
+    closed s = false -> (forall b, In b l -> sb_server b = false) ->
+    snd (tick_pos s l) = map (fun b => OUnsub (sb_name b) 2500) l /\
+    closed (fst (tick_pos s l)) = false.
+Proof. exact tick_pos_spec. Qed.
+Print Assumptions C36_position_invalid_unsubscribes.
+
+Theorem C36_position_invalid_server_side :
+  forall s b r, closed s = false -> sb_server b = true -> tick_pos s (b :: r) = close s 3010.
+Proof. exact tick_pos_server. Qed.
+Print Assumptions C36_position_invalid_server_side.
+
+Theorem C36_position_check_not_before_delay :
+  forall g s b, now s - sb_check b <= g_pos_delay g -> pos_invalid g s b = false.
+Proof. exact pos_not_due. Qed.
+Print Assumptions C36_position_check_not_before_delay.
+
 (* Non-vacuity: a run with ping, pong, refresh and an expiry close. *)
 Definition ex_cfg := mkCfg 20 10 23 20 10 10 false RNone SFail 0.
 Example C36_ex_run :
